@@ -56,3 +56,16 @@ ENTRY["monitor_sigs"] = ENTRY["monitor_sigs"] + [m for m in _sd.MONITOR_SIGS if 
 ENTRY["trusted_base"] = ENTRY["trusted_base"] + _sd.TRUSTED_BASE
 ENTRY["assumptions"] = ENTRY["assumptions"] + _sd.ASSUMPTIONS
 ENTRY["level_text"] += _sd.LEVEL_TEXT
+
+# Fifth session: the two C14-anchored files on the peer-data path that no stream reached — core/priority (calculate.go's
+# calculateResult: every node must compute the same Topics from the same set of messages; the prioritiser's admission of peer
+# messages) and p2p/receive.go (RegisterHandler's frame / decode / handler decision): Model/Priority.lean, theorems
+# Props/C14Priority.lean, stream priority (real calculateResult, real Prioritiser handler with real signatures, real
+# RegisterHandler over libp2p's mocknet with raw frames).
+from vlib import snippet_C14priority as _pr
+ENTRY["streams"] = ENTRY["streams"] + [_pr.STREAM]
+ENTRY["lean_props_extra"].append(_pr.EXTRA_LEAN)
+ENTRY["monitor_sigs"] = ENTRY["monitor_sigs"] + [m for m in _pr.MONITOR_SIGS if m not in ENTRY["monitor_sigs"]]
+ENTRY["trusted_base"] = ENTRY["trusted_base"] + _pr.TRUSTED_BASE
+ENTRY["assumptions"] = ENTRY["assumptions"] + _pr.ASSUMPTIONS
+ENTRY["level_text"] += _pr.LEVEL_TEXT
